@@ -1,7 +1,8 @@
 CONSTANTS
   TLen = 6
   NPrim = 3
-  MaxObj = 9
+  NMat = 1
+  MaxObj = 10
   MaxDepth = 0
 INIT TraceInit
 NEXT TraceNext
